@@ -274,7 +274,7 @@ func runValJob(j valJob) {
 	}
 }
 
-// alignQuirk: finding switch F37 — does the validator under test accept an alignment exponent of 64?
+// alignQuirk: finding switch F43 — does the validator under test accept an alignment exponent of 64?
 var alignQuirk bool
 
 func probeAlignQuirk() {
@@ -284,18 +284,18 @@ func probeAlignQuirk() {
 		hx.Fatal("align probe: %v", err)
 	}
 	m.Funcs[0].Code = asm
-	c := mkCase("F37-probe", "probe", "v2", m.Binary(), "probe")
+	c := mkCase("F43-probe", "probe", "v2", m.Binary(), "probe")
 	o := pool.Run(c.req("validate"), caseDeadline)
 	if o.Resp == nil || !o.Resp.Decode.OK || o.Resp.Validate == nil {
 		hx.Fatal("align probe: no answer (%s %s)", o.Crash, o.Stderr)
 	}
 	alignQuirk = o.Resp.Validate.OK
 	if alignQuirk {
-		rep.Count("validator-variant:as-is(alignment exponents >= 63 accepted, F37)")
-		rep.Note("finding switch F37: `i32.load align=2^64` is ACCEPTED by Module.Validate - the as-is validator model (check) is tied; validate_sound_W0 covers the bodies with alignSane only, validate_asIs_alignment_witness is the counterexample")
+		rep.Count("validator-variant:as-is(alignment exponents >= 63 accepted, F43)")
+		rep.Note("finding switch F43: `i32.load align=2^64` is ACCEPTED by Module.Validate - the as-is validator model (check) is tied; validate_sound_W0 covers the bodies with alignSane only, validate_asIs_alignment_witness is the counterexample")
 	} else {
 		rep.Count("validator-variant:repaired(alignment exponents >= 32 rejected)")
-		rep.Note("finding switch F37: `i32.load align=2^64` is rejected - the repaired variant (check && alignSane) is tied and validate_sound_W0 is its full soundness theorem")
+		rep.Note("finding switch F43: `i32.load align=2^64` is rejected - the repaired variant (check && alignSane) is tied and validate_sound_W0 is its full soundness theorem")
 	}
 }
 
